@@ -531,11 +531,51 @@ func genC05Tx(r *Rng) c05Tx {
 	return tx
 }
 
+// genC05Bundle: one Cosmos tx carrying 2-3 messages, mostly of different signers
+func genC05Bundle(r *Rng) c05Tx {
+	n := r.Range(2, 3)
+	var subs []c05Tx
+	for i := 0; i < n; i++ {
+		m := genC05Tx(r.Fork())
+		m.Steps = nil
+		m.Signer = r.Intn(3)
+		if i > 0 && r.Chance(1, 4) {
+			m.Signer = subs[0].Signer
+		}
+		switch r.Pick(5, 4) {
+		case 0:
+			m.Target, m.Mode = "eoa", 0
+		case 1:
+			m.Target = "x"
+			m.Mode = []int{0, 1, 3}[r.Pick(2, 1, 2)]
+			m.W = pickStr(r, "0", "1", "999999999999", "1000000000000", "2000000000005", "7000000000000")
+		}
+		m.GasMode = []string{"below", "exact", "plus", "ample"}[r.Pick(1, 2, 3, 8)]
+		if m.Target == "x" && m.GasMode == "plus" {
+			m.GasMode = "ample" // a little gas above intrinsic may or may not suffice for the contract: not predictable
+		}
+		if strings.HasPrefix(m.Value, "bal-") || len(m.Value) > 15 {
+			m.Value = pickStr(r, "0", "1000000000000", "5000000000999")
+		}
+		if m.Value == "1" || m.Value == "999999999999" {
+			if r.Chance(3, 4) {
+				m.Value = "3000000000000"
+			}
+		}
+		subs = append(subs, m)
+	}
+	return c05Tx{Gp: "0", Tip: "0", Cap: "0", Value: "0", W: "0", Target: "bundle", Bundle: subs}
+}
+
 func genC05Case(r *Rng) c05Case {
 	cs := c05Case{Fund: pickStr(r, "1000000000", "1000000000000", "3000000000000000", "400000"), RBal: pickStr(r, "0", "0", "17")}
 	n := r.Range(1, 3)
 	for i := 0; i < n; i++ {
-		cs.Txs = append(cs.Txs, genC05Tx(r.Fork()))
+		if r.Chance(1, 4) {
+			cs.Txs = append(cs.Txs, genC05Bundle(r.Fork()))
+		} else {
+			cs.Txs = append(cs.Txs, genC05Tx(r.Fork()))
+		}
 	}
 	return cs
 }
@@ -585,6 +625,17 @@ func TestC05(t *testing.T) {
 	run(c05Case{Fund: "1000000000000", RBal: "0", Txs: []c05Tx{dtx(kill("B"), pay("3000000000000"), kill("B"), kill("R")),
 		dtx(kill("B"), pay("3000000000000"), kill("R"), c05Step{Mode: 3, Val: "0", W: "3000000000000", Benef: "D"}),
 		dtx(c05Step{Mode: 5, Val: "0", W: "0", Benef: "X"}, pay("2000000000000"), c05Step{Mode: 5, Val: "1000000000000", W: "0", Benef: "X"}, kill("D"), pay("4000000000001"))}})
+	// … one Cosmos tx bundling messages of different signers (each pays for its own gas) and of one signer
+	sub := func(signer int, gm string, gasadd int, gp, value, target string, mode int, w string) c05Tx {
+		return c05Tx{Signer: signer, Ty: 0, GasMode: gm, GasAdd: gasadd, Gp: gp, Tip: "0", Cap: "0", Value: value, Target: target, Mode: mode, W: w}
+	}
+	bundle := func(subs ...c05Tx) c05Tx {
+		return c05Tx{Gp: "0", Tip: "0", Cap: "0", Value: "0", W: "0", Target: "bundle", Bundle: subs}
+	}
+	run(c05Case{Fund: "1000000000000", RBal: "0", Txs: []c05Tx{
+		bundle(sub(1, "plus", 79000, base, "0", "eoa", 0, "0"), sub(2, "plus", 9000, "1500000000001", base, "eoa", 0, "0")),
+		bundle(sub(0, "ample", 0, "7000000123456", "2000000000001", "x", 3, "999999999999"), sub(1, "ample", 0, base, "0", "x", 1, "0"), sub(0, "exact", 0, base, base, "eoa", 0, "0")),
+		bundle(sub(2, "plus", 50000, "0", "0", "eoa", 0, "0"), sub(1, "below", 10, base, "0", "eoa", 0, "0"))}})
 	// … prices below the base fee for each of the three tx types (charged and refunded at the base fee)
 	run(c05Case{Fund: "1000000000000", RBal: "0", Txs: []c05Tx{
 		{Ty: 1, GasMode: "plus", GasAdd: 79000, Gp: "0", Tip: "0", Cap: "0", Value: "0", Target: "eoa", W: "0"},
